@@ -1199,8 +1199,9 @@ class StreamWorld(BaseWorld):
             return False
         if self.is_view_locked(recv) and ev.get('conserve_phases'):
             return False
-        if self.prop == 'C13' and self.is_view_locked(recv):
-            return False      # a per-phase stream as the receiver of a whole-stream operation: not generated for C13
+        if self.is_view_locked(recv) and (self.prop == 'C13' or ev.get('energy_balance') or ev.get('op') in ('mix_energy', None)):
+            return False      # a per-phase stream as the receiver of a whole-stream operation that may have to
+                              # change its phase representation (energy fallback): not generated
         for i in ev['inlets']:
             # an inlet that is PART of the receiver's own data (a phase view of the receiver, or the receiver is
             # a view of the inlet): the property covers "the receiver is itself one of the inlets", not partial
